@@ -144,7 +144,8 @@ EXTRA_REQUIRES["compute_spline_bas_separate_deriv"] = _nlm_square
 _cols = lambda a: [c for k in ("ig", "ix", "iy", "iz") for c in (tm.mk_le(tm.ZERO, a[k]), tm.mk_lt(a[k], a["nf"]))] + \
     [tm.mk_not(tm.mk_eq(a[x], a[y])) for x, y in (("ig", "ix"), ("ig", "iy"), ("ig", "iz"), ("ix", "iy"), ("ix", "iz"), ("iy", "iz"))]
 for _f in ("add_lp1_term_fwd", "add_lp1_term_bwd", "add_lp1_term_onsite_fwd", "add_lp1_term_onsite_bwd", "add_lp1_onsite_new_fwd", "add_lp1_onsite_new_bwd", "add_lp1_term_grad"):
-    # the l+1 steps address four distinct columns of rows of length nf (LCAOInterpolator: scratch / x / y / z slots of the feature block)
+    # the l+1 steps address four distinct columns of rows of length nf (LCAOInterpolator: scratch / x / y / z slots of the feature block);
+    # the requires clause is proved at the Python call sites in C18 (unit l1-wrappers)
     EXTRA_REQUIRES[_f] = _cols
 MONOTONE.update({"add_lp1_term_onsite_fwd": ["ar_loc"], "add_lp1_term_onsite_bwd": ["ar_loc"],
                  "project_spline_to_conv": ["atco.ao_loc"], "SDMXylm_yzx2xyz": ["ylm_atom_loc"], "SDMXylm_grad": ["ylm_atom_loc"], "SDMXylm_loop": ["ylm_atom_loc"]})
